@@ -373,6 +373,29 @@ PROPS.update({
     },
 })
 
-NOT_APPLICABLE = {p: "check not built yet (work in progress; this entry is temporary)" for p in
-                  ["C%02d" % i for i in range(1, 21)]}
+PROPS.update({
+    "C20": {
+        "tests": "^TestC20_",
+        "race": True,
+        "quick": {"scale": 1.0, "timeout": 1500},
+        "thorough": {"scale": 4.0, "shards": 8, "timeout": 2400},
+        "rule": "binary built with -race. (a) rapid workloads of 50-200 pre-generated calls on distinct inputs (parse valid / invalidated "
+                "operations, apply create / update on privately owned states, compose, transform, ResolveDocument, ProcessOperation, "
+                "VDR.Create with fixed keys, VDR.Read, canonicalize+hash; strings with control characters, astral characters and boundary "
+                "numbers in anchor origins and service types) against one shared parser, applier, composer, transformer, handler and VDR: "
+                "all calls first run sequentially, then twice concurrently (each call exactly once per round) on 2/4/8/16 goroutines with "
+                "GOMAXPROCS 1/2/4/16; every result must equal the sequential one and the race detector must stay silent. (b) 2-16 "
+                "goroutines issue drawn Register/CreateClientVersion or Add/ForNamespace sequences over 1-3 keys on a fresh registry; the "
+                "call/return history (logical clock) is checked for linearizability against a map model with porcupine (Register: exactly "
+                "one winner per version, later ones panic). Non-trivial: a workload in which >= 2 goroutines were inside the same "
+                "component at once (atomic in-flight counter), a registry history with >= 2 writes; distinct by workload.",
+        "technique": "stress under the Go race detector with generated workloads, differential concurrent-vs-sequential results, porcupine linearizability check of registry histories",
+        "level_text": "Sampled schedules only: stress plus race detector plus linearizability checking of observed histories; a race needs both accesses to execute.",
+        "level_note": "Trusts the Go race detector and porcupine; the Go scheduler is not controlled.",
+        "assumptions": ["inputs that share mutable substructure (two states sharing one operations slice or document map) are not 'distinct inputs' and are not generated",
+                        "failures are schedule dependent: rapid may report them as flaky; the workload and history are printed and the replay re-runs the failed test with the same seed"],
+    },
+})
+NOT_APPLICABLE = {}
+NOT_APPLICABLE_OLD = {}
 HOOK_COMMITS = []
